@@ -28,6 +28,17 @@ class Spike(Job):
         S.ft = V.float("ft", lo=0) if self.has_f else None
         return S
 
+    def offgrid_pins(self, S):
+        """thresholds far below grid G.  Sound for the unchanged code: on G the neighbour average (a+b)/2 and the differences
+        x-ref, x-a, x-b are exact in binary64, and `diff > threshold` compares two floats exactly."""
+        from fractions import Fraction
+        pins = []
+        if S.st is not None:
+            pins.append(("suspect_threshold = 2^-60", {S.st.v: Fraction(1, 2 ** 60)}))
+        if S.ft is not None:
+            pins.append(("fail_threshold = 2^-50", {S.ft.v: Fraction(1, 2 ** 50)}))
+        return pins
+
     def invoke(self, mods, S, K):
         inp = K.farray(S.x) if self.carrier == "ndarray" else K.flist(S.x)
         kw = {}
